@@ -66,6 +66,15 @@ def make_content(rng, kind, eff_enc, own_diff_enc=None):
         indent = rng.choice([None, None, 0, 1, 2, 4, 8])
         with_bom = rng.random() < 0.3
         bom = ''.encode(enc) if with_bom else b''
+        try:
+            decodes_back = (bom + b''.join(body_lines)).decode(enc) == text
+        except UnicodeError:
+            decodes_back = False
+        if not decodes_back:
+            # e.g. a text starting with U+FEFF / U+FFFE in a BOM-sensitive codec: the codec itself reads it differently
+            lines = ['plain']
+            text = 'plain' + nl
+            body_lines = [spec.bomfree('plain' + nl, enc)]
         if indent:
             body = b''.join((b' ' * indent) + (bom if i == 0 else b'') + bl for i, bl in enumerate(body_lines))
         else:
